@@ -317,7 +317,7 @@ func genC05(c *Ctx) {
 	r := c.R
 	c.Timeout = 0
 	// A: one Analyze on a fresh engine, compared field by field with the model
-	bud := newBudget(c, 600000, 80000000)
+	bud := newBudget(c, 1800000, 80000000)
 	for k := 0; !bud.spent() && k < 20000; k++ {
 		size := pickSize(r)
 		p := livePosition(r, size)
@@ -343,7 +343,7 @@ func genC05(c *Ctx) {
 		tagSearchOut(c, "A", out)
 	}
 	// B: value / depth / first move against exhaustive negamax, sort on and off, symmetry de-duplication
-	bud = newBudget(c, 600000, 80000000)
+	bud = newBudget(c, 1800000, 80000000)
 	for k := 0; !bud.spent() && k < 20000; k++ {
 		size := pickSize(r)
 		p := livePosition(r, size)
@@ -375,7 +375,7 @@ func genC05(c *Ctx) {
 		}
 	}
 	// C: histories on one engine, exact (NoSort): related / repeated positions, tiny tables, cancelled calls
-	bud = newBudget(c, 700000, 80000000)
+	bud = newBudget(c, 2100000, 80000000)
 	for k := 0; !bud.spent() && k < 20000; k++ {
 		size := pickSize(r)
 		s := exactCfg(c, size, r.Chance(2, 3))
@@ -437,7 +437,7 @@ func genC05(c *Ctx) {
 		}
 	}
 	// D: histories with sorting / de-duplication: the engine runs silently, its verdicts are checked
-	bud = newBudget(c, 400000, 60000000)
+	bud = newBudget(c, 1200000, 60000000)
 	for k := 0; !bud.spent() && k < 20000; k++ {
 		size := pickSize(r)
 		s := cfgSpec{size: size, depth: pickDepth(r, size, c.Thorough()), tbl: tinyTables[r.Intn(len(tinyTables))],
